@@ -181,12 +181,59 @@ def restyle(yaml, node, style):
     return yaml.serialize(n, **kw)
 
 
+def boolfix_cases(ctx, n):
+    """Unions that contain bool, as the item / value type of lists and dicts, bare, under Optional and as
+    class attributes; documents with booleans (and other kinds) at those positions"""
+    yaml, yatiml = L.setup()
+    rng = ctx.rng
+    S = G.S
+    for _ in range(n):
+        other = rng.choice([('int',), ('str',), ('float',), ('null',)])
+        ms = [('bool',), other]
+        rng.shuffle(ms)
+        u = ('union', ms)
+        inner = rng.choice([('seq', rng.choice(['list', 'sequence']), u), ('map', 'dict', ('str',), u), u,
+                            ('seq', 'list', ('seq', 'list', u))])
+        t = rng.choice([inner, CM.t_opt(inner) if inner[0] != 'union' else inner])
+        params = [dict(name='flags', type=t), dict(name='n', type=('int',), default=1)]
+        holder = dict(name='Holder', bases=[], registered=True, kind='plain', params=params, all_params=params,
+                      extra=False, abstract=None, define_init=True)
+        spec = [holder]
+        vals = [S(rng.choice(['true', 'false', 'True', '1', 'a', '1.5', 'null', 'yes'])) for _ in range(3)]
+
+        def doc_for(ty):
+            if ty[0] == 'seq':
+                return ('q', [doc_for(ty[2]) for _ in range(rng.randint(1, 3))], None)
+            if ty[0] == 'map':
+                return ('m', [(S(k), doc_for(ty[3])) for k in rng.sample(['k1', 'k2', 'k3'], rng.randint(1, 2))], None)
+            if ty[0] == 'union' and ty[1] and ty[1][0][0] in ('seq', 'map') or (ty[0] == 'union' and any(
+                    m[0] in ('seq', 'map') for m in ty[1])):
+                m = [x for x in ty[1] if x[0] in ('seq', 'map')][0]
+                return doc_for(m) if rng.random() < 0.8 else S('null')
+            return rng.choice(vals)
+        body = doc_for(t)
+        if rng.random() < 0.5:
+            dt, doc = ('cls', 'Holder'), ('m', [(S('flags'), body)], None)
+        else:
+            dt, doc = t, body
+        try:
+            c = L.build_case(rng, yaml, yatiml, spec, dt, doc, ('boolfix-directed',))
+            L.run_case(c, yaml)
+        except Exception as e:  # noqa
+            ctx.count('gen_error:' + type(e).__name__)
+            continue
+        ctx.count('boolfix_directed')
+        yield c
+
+
 def explore(ctx):
     yaml, yatiml = L.setup()
     rng = ctx.rng
     cases = LC.CaseBuffer(ctx)
-    for c in LC.gen_cases(ctx, ctx.budget(600, 9000), mutate_p=0.3, prop='C13'):
-        if c.doc is not None and rng.random() < 0.3:
+    import itertools
+    for c in itertools.chain(LC.gen_cases(ctx, ctx.budget(600, 9000), mutate_p=0.3, prop='C13'),
+                             boolfix_cases(ctx, ctx.budget(80, 1500))):
+        if c.doc is not None and rng.random() < 0.3 and not (c.desc and c.desc[0] == 'boolfix-directed'):
             # application tags on scalars (they are stripped under Any / untyped / extra positions)
             doc = c.doc
             sc = [p for p in G.all_paths(doc) if G.get_at_path(doc, p)[0] == 's']
@@ -218,6 +265,8 @@ def explore(ctx):
         which = rng.sample(['keys', 'style', 'style', 'unrelated', 'kinds', 'boolfix'], 3)
         if '!Unrelated' in c.text and 'unrelated' not in which:
             which.append('unrelated')
+        if c.desc and c.desc[0] == 'boolfix-directed':
+            which = ['boolfix', 'kinds', 'style']
         for tr in which:
             text2, spec2, t2 = c.text, c.spec, c.doc_type
             extra_cls = []
